@@ -60,6 +60,11 @@ class LocalHashFileDB(HashFileDB):
             return False
         return True
 
+    def list_oids_exists(self, oids, jobs=None):
+        # NOTE: same as `exists()`/`oids_exist()`: an unprotected file might be
+        # a leftover of an interrupted transfer, so don't trust it unchecked.
+        yield from self.oids_exist(list(oids), jobs=jobs)
+
     def oids_exist(self, oids, jobs=None, progress=noop):
         ret = []
         progress = partial(progress, "querying", len(oids))
